@@ -595,7 +595,7 @@ func (c *VirtualTable) Insert(ctx context.Context, values map[int]interface{}) (
 	if err != nil {
 		return 0, fmt.Errorf("get: %w", err)
 	}
-	if ok && (!old.Deleted || !ot.Add(old.DeleteUpdateOffset.AsDuration()).Before(t)) {
+	if ok && (!old.Deleted || ot.Add(old.DeleteUpdateOffset.AsDuration()).After(t)) {
 		return 0, ErrS3DBConstraintPrimaryKey
 	}
 	for i := range values {
@@ -786,7 +786,9 @@ func MergeRows(_ interface{},
 			if !hideDeletedValue(t1, v1, resetValuesBefore) {
 				res.ColumnValues[k] = adj(t1, v1, outTime)
 			}
-		case UpdateTime(t1, v1).Before(UpdateTime(t2, v2)):
+		case !UpdateTime(t2, v2).Before(UpdateTime(t1, v1)):
+			// the second row also wins a tie: within one transaction all
+			// writes carry the same time and the later statement counts
 			if !hideDeletedValue(t2, v2, resetValuesBefore) {
 				res.ColumnValues[k] = adj(t2, v2, outTime)
 			}
